@@ -1186,7 +1186,7 @@ func (e *nilRecvErr) Error() string { return e.s }
 
 type sfErr struct{ s string }
 
-func (e sfErr) Error() string                              { return "sfErr:" + e.s }
+func (e sfErr) Error() string                           { return "sfErr:" + e.s }
 func (e sfErr) SafeFormat(p redact.SafePrinter, _ rune) { p.SafeString("SFERR"); p.UnsafeString(e.s) }
 
 func streamHook(rep *Report, tier string, seed uint64) {
@@ -1217,7 +1217,7 @@ func streamHook(rep *Report, tier string, seed uint64) {
 			}
 			for name, e := range errs {
 				for _, d := range []string{"%v", "%s", "%+v", "%#v", "%d", "%q", "%x", "%8v"} {
-					for _, pos := range []string{"top", "w", "slice", "mapval", "field", "ufield", "unsafe", "safe"} {
+					for _, pos := range []string{"top", "w", "slice", "mapval", "field", "ufield", "unsafe", "safe", "panicval", "panicval-in-slice"} {
 						for _, hk := range []int{0, 1, 2} {
 							switch hk {
 							case 0:
@@ -1239,10 +1239,21 @@ func streamHook(rep *Report, tier string, seed uint64) {
 								arg = inner{A: e}
 							case "ufield":
 								arg = inner{b: e}
+							case "panicval":
+								// the error is the value a String method panics with: catchPanic prints it
+								// through ordinary method dispatch
+								arg = panicWith{e}
+							case "panicval-in-slice":
+								arg = []interface{}{1, panicWith{e}}
 							case "unsafe":
 								arg = redact.Unsafe(e)
 							case "safe":
 								arg = redact.Safe(e)
+							}
+							if strings.HasPrefix(pos, "panicval") && (hk == 2 || d == "%#v" || d == "%d") {
+								// String is not called under %#v or %d;
+								// a panic while a panic is being reported propagates, as in fmt
+								continue
 							}
 							var out []byte
 							var pm string
@@ -1279,7 +1290,7 @@ func streamHook(rep *Report, tier string, seed uint64) {
 									}
 									if hookExpected && len(seen) > 0 {
 										wantVerb := verb
-										if pos == "w" {
+										if pos == "w" || strings.HasPrefix(pos, "panicval") {
 											wantVerb = 'v'
 										}
 										if !strings.HasSuffix(seen[0], "/"+string(wantVerb)) {
@@ -1318,6 +1329,10 @@ func streamHook(rep *Report, tier string, seed uint64) {
 			}
 		})
 }
+
+type panicWith struct{ v interface{} }
+
+func (p panicWith) String() string { panic(p.v) }
 
 func safeErrText(err error) (s string) {
 	defer func() {
